@@ -646,3 +646,123 @@ func c02Leaver(w *W) {
 func init() {
 	register(&Scenario{Name: "push-worker-takes-one-job-and-leaves", Prop: "C02", Horizon: time.Hour, Weight: 1, Run: c02Leaver})
 }
+
+// c02Admission: a PAIR socket reachable through several endpoints (two or
+// three listeners, or listeners and a dialer of its own) while that many peers
+// arrive at the same moment. At most one is a peer at any time - the others
+// are refused -, exactly one after things settle, and the conversation with
+// the admitted one works in both directions with nothing from the others in it.
+func c02Admission(w *W) {
+	kind := []string{"pair", "xpair", "pair1", "xpair1"}[w.Choose(simrt.SShape, 4)]
+	tran := w.simFallback([]string{"inproc", "sim", "tcp", "ipc", "tls+tcp", "ws"}[w.Choose(simrt.SShape, 6)])
+	nep := 2 + w.Choose(simrt.SShape, 2)
+	w.SetShape("kind", kind)
+	w.SetShape("tran", tran)
+	w.SetShape("endpoints", nep)
+	w.UseNet(NetCfg{Segment: w.Choose(simrt.SShape, 2) == 0})
+	a := w.Sock(kind)
+	var all []mangos.Socket
+	defer func() {
+		a.Close()
+		for _, s := range all {
+			s.Close()
+		}
+	}()
+	mustSet(w, a, mangos.OptionReconnectTime, time.Hour) // (one attempt per endpoint in this run)
+	cur, max := 0, 0
+	a.SetPipeEventHook(func(ev mangos.PipeEvent, p mangos.Pipe) {
+		switch ev {
+		case mangos.PipeEventAttached:
+			cur++
+			if cur > max {
+				max = cur
+			}
+		case mangos.PipeEventDetached:
+			cur--
+		}
+	})
+	var addrs []string
+	for i := 0; i < nep; i++ {
+		addr := w.Addr(tran)
+		if err := w.ListenOn(a, addr); err != nil {
+			w.Failf("HARNESS/listen", "%v", err)
+			return
+		}
+		addrs = append(addrs, addr)
+	}
+	// every peer dials its own endpoint, all at the same instant
+	var dials []*Call
+	for i, addr := range addrs {
+		p := w.Sock(kind)
+		all = append(all, p)
+		mustSet(w, p, mangos.OptionReconnectTime, time.Hour)
+		mustSet(w, p, mangos.OptionRecvDeadline, 50*time.Millisecond)
+		addr := addr
+		dials = append(dials, w.Do(fmt.Sprintf("peer%d.Dial", i), func() (interface{}, error) { return nil, w.DialOn(p, addr) }))
+	}
+	for _, d := range dials {
+		d.Wait(10 * time.Second)
+	}
+	w.Sleep(200 * time.Millisecond)
+	w.Settle()
+	if max > 1 {
+		w.Failf("C02/pair-two-peers:"+kind, "%s over %s with %d endpoints: %d peers arriving at the same moment through different endpoints were attached at the same time", kind, tran, nep, max)
+		return
+	}
+	if cur != 1 {
+		w.Failf("C02/pair-not-admitting", "%s over %s with %d endpoints and as many peers arriving at once: %d peers attached after everything settled", kind, tran, nep, cur)
+		return
+	}
+	w.Probe("concurrent-admission-through-several-endpoints")
+	// the conversation: what A sends arrives at exactly one peer, once; what that
+	// peer answers arrives at A
+	mustSet(w, a, mangos.OptionSendDeadline, time.Second)
+	mustSet(w, a, mangos.OptionRecvDeadline, time.Second)
+	const n = 4
+	for i := 0; i < n; i++ {
+		if err := SendBody(a, kind, []byte(fmt.Sprintf("a%d", i))); err != nil {
+			w.Failf("C02/send-failed:"+kind, "A's Send %d with one peer attached: %v", i, err)
+			return
+		}
+	}
+	w.Sleep(20 * time.Millisecond)
+	w.Settle()
+	got := 0
+	var partner mangos.Socket
+	for _, p := range all {
+		mine := 0
+		for {
+			m, err := p.RecvMsg()
+			if err != nil {
+				break
+			}
+			mine++
+			m.Free()
+		}
+		if mine > 0 {
+			if partner != nil {
+				w.Failf("C02/pair-two-peers:"+kind, "%s: A's messages arrived at two different peers", kind)
+				return
+			}
+			partner = p
+			got = mine
+		}
+	}
+	if got != n {
+		w.Failf("C02/lost:"+kind, "%s over %s: A sent %d messages to its one peer, %d arrived", kind, tran, n, got)
+		return
+	}
+	if err := SendBody(partner, kind, []byte("back")); err != nil {
+		w.Failf("C02/send-failed:"+kind, "the admitted peer's Send: %v", err)
+		return
+	}
+	if m, err := a.RecvMsg(); err != nil || string(m.Body) != "back" {
+		w.Failf("C02/lost:"+kind, "%s over %s: the admitted peer's message did not arrive at A (%v)", kind, tran, err)
+		return
+	}
+	w.Delivery += n + 1
+}
+
+func init() {
+	register(&Scenario{Name: "pair-concurrent-admission", Prop: "C02", Horizon: time.Hour, Weight: 1, Run: c02Admission})
+}
